@@ -207,6 +207,20 @@ def run(ctx):
             else:
                 # increments of every size: O(1) as well as the tiny ones of an optimiser close to convergence
                 a = pp.LieTensor(alg[j].tensor() * rng.choice([1.0, 1.0, 1e-2, 3e-4, 3e-5, 1e-5, 1e-7, 1e-10, 0.0]), ltype=alg.ltype)
+                # block-sparse increments (an optimiser that moves only the scale and the translation, only the rotation ...): one
+                # block exactly zero while the others are not - a regime of Exp that needs two components together; chosen from
+                # the position in the history, without consuming the random stream
+                mk = (5 * h + stepi) % 6
+                if mk >= 2:
+                    at = a.tensor().clone()
+                    r0 = 3 if g in ('SE3', 'Sim3') else 0
+                    if mk in (2, 5):
+                        at[..., r0:r0 + 3] = 0.0
+                    if mk == 3 and g in ('RxSO3', 'Sim3'):
+                        at[..., -1] = 0.0
+                    if mk in (4, 5) and g in ('SE3', 'Sim3'):
+                        at[..., 0:3] = 0.0
+                    a = pp.LieTensor(at, ltype=alg.ltype)
                 if stepi % 3 == 0:
                     X = X.Retr(a)
                 elif stepi % 3 == 1:
